@@ -53,8 +53,8 @@ func plans() map[string]Plan {
 		QuickCap: 300, ThoroughCap: 3000,
 		Assumptions: append([]string{"unroll(p) and its meaning are computed by the harness (engines/e4/c08.go, ref/asm.go) without calling gmars"}, baseAssumptions...)}
 	p["C06"] = Plan{Prop: "C06",
-		Quick:    []Job{{Name: "accepted-outputs", Engine: "e4"}},
-		Thorough: []Job{{Name: "accepted-outputs", Engine: "e4"}},
+		Quick:    []Job{{Name: "accepted-outputs", Engine: "e4"}, {Name: "token-soup-and-mutations", Engine: "e6", Inst: true, Args: []string{"-job", "inst"}}},
+		Thorough: []Job{{Name: "accepted-outputs", Engine: "e4"}, {Name: "token-soup-and-mutations", Engine: "e6", Inst: true, Args: []string{"-job", "inst"}}},
 		QuickCap: 300, ThoroughCap: 3000,
 		Assumptions: append([]string{"the ICWS'88 legality table is ref.Legal88 (written from the standard; SLT with immediate B allowed as the suite documents)"}, baseAssumptions...)}
 	for _, id := range []string{"C09", "C10", "C16"} {
